@@ -322,6 +322,11 @@ def run(cfg, outdir=None, with_series=False):
             # a user of the API who looks at the hourly temperatures of the design before writing the results
             from ghedesigner.enums import TimestepType as _T
             g._search.ghe.simulate(method=_T.HOURLY)
+        if c.get("_hourly_then_hybrid_before_write"):
+            # ... and then simulates the design with the hybrid method again before writing
+            from ghedesigner.enums import TimestepType as _T2
+            g._search.ghe.simulate(method=_T2.HOURLY)
+            g._search.ghe.simulate(method=_T2.HYBRID)
         if outdir:
             g.prepare_results("verif", "note", "verif", "it")
             g.write_output_files(Path(outdir), c.get("_suffix", ""))
@@ -591,7 +596,8 @@ def run_cli_sequence(cfgs):
                 gs = d["ghe_system"]
                 r.update({"nbh": gs["number_of_boreholes"], "H": gs["active_borehole_length"]["value"], "field_specifier": gs.get("field_specifier"),
                           "max": d["simulation_results"]["max_hp_eft"]["value"], "min": d["simulation_results"]["min_hp_eft"]["value"],
-                          "borefield": (od / "BoreFieldData.csv").read_text()})
+                          "borefield": (od / "BoreFieldData.csv").read_text(),
+                          "time_column": [float(l.split(",")[0]) for l in (od / "TimeDependentValues.csv").read_text().splitlines()[1:]]})
             out.append(r)
     finally:
         shutil.rmtree(tmp, ignore_errors=True)
